@@ -142,6 +142,9 @@ def cfg : Cfg :=
   { B := Gen.Postings.COMPRESSION_BLOCK_SIZE, S := Gen.Postings.PVINT_STOP_BIT,
     T := Gen.Postings.TERMINATED, P := bp4x }
 
+/-- the extracted configuration with another bit packer -/
+def cfgWith (P : BitPacker) : Cfg := { B := cfg.B, S := cfg.S, T := cfg.T, P := P }
+
 def hasFreq : RecOpt → Bool
   | .basic => false
   | _ => true
@@ -361,16 +364,17 @@ def step (c : Cfg) (s : Cursor) : Op → Cursor
   | .seek t => seek c s t
 
 /-- what is observable at a cursor: the doc, and — on a real document only — its term frequency
-and the offset of its positions -/
-def observe (c : Cfg) (s : Cursor) : Nat × Nat × Nat :=
-  if doc c s = c.T then (c.T, 0, 0) else (doc c s, termFreq s, readOffset s)
+and (when positions are recorded) the offset of its positions in the term's position stream -/
+def observe (c : Cfg) (o : RecOpt) (s : Cursor) : Nat × Nat × Nat :=
+  if doc c s = c.T then (c.T, 0, 0)
+  else (doc c s, termFreq s, if o = .positions then readOffset s else 0)
 
 /-- run a program, reporting `(doc, term_freq, read offset)` after every operation -/
-def run (c : Cfg) : Cursor → List Op → List (Nat × Nat × Nat)
+def run (c : Cfg) (o : RecOpt) : Cursor → List Op → List (Nat × Nat × Nat)
   | _, [] => []
   | s, op :: ops =>
     let s' := step c s op
-    observe c s' :: run c s' ops
+    observe c o s' :: run c o s' ops
 
 /-! ### the same programs on the specification: a sorted list and an index -/
 
@@ -383,14 +387,14 @@ def specStep (docs : List Nat) (s : SpecCursor) : Op → SpecCursor
   | .advance => { idx := min (s.idx + 1) docs.length }
   | .seek t => { idx := max s.idx (docs.countP (· < t)) }
 
-def specObserve (T : Nat) (docs tfs : List Nat) (s : SpecCursor) : Nat × Nat × Nat :=
+def specObserve (T : Nat) (o : RecOpt) (docs tfs : List Nat) (s : SpecCursor) : Nat × Nat × Nat :=
   if specDoc T docs s = T then (T, 0, 0)
-  else (specDoc T docs s, tfs.getD s.idx 1, (tfs.take s.idx).sum)
+  else (specDoc T docs s, tfs.getD s.idx 1, if o = .positions then (tfs.take s.idx).sum else 0)
 
-def specRun (T : Nat) (docs tfs : List Nat) : SpecCursor → List Op → List (Nat × Nat × Nat)
+def specRun (T : Nat) (o : RecOpt) (docs tfs : List Nat) : SpecCursor → List Op → List (Nat × Nat × Nat)
   | _, [] => []
   | s, op :: ops =>
     let s' := specStep docs s op
-    specObserve T docs tfs s' :: specRun T docs tfs s' ops
+    specObserve T o docs tfs s' :: specRun T o docs tfs s' ops
 
 end TantivyModel.Postings
